@@ -38,7 +38,15 @@ func (r *verifDataReader) ReadAt(p []byte, off int64) (int, error) {
 func (r *verifDataReader) Close() error { return nil }
 
 func verifNewReader(db *DB, _ context.Context, ptr pointer) (*Reader, error) {
-	return &Reader{ptr: ptr, ReaderAtCloser: &verifDataReader{data: verifReaderData[ptr.fileKey]}}, nil
+	file := verifReaderData[ptr.fileKey]
+	lo, hi := int(ptr.offset), int(ptr.offset)+int(ptr.size)
+	if lo > len(file) {
+		lo = len(file)
+	}
+	if hi > len(file) {
+		hi = len(file)
+	}
+	return &Reader{ptr: ptr, ReaderAtCloser: &verifDataReader{data: file[lo:hi]}}, nil
 }
 
 // VerifBuildDB builds a DB holding exactly the given domains (sorted, disjoint, non-empty data). Under the engine
